@@ -491,6 +491,19 @@ pub fn run(args: &Args) -> i32 {
             }
         }
     }
+    // quick tier: one family near 300 bits (A above 2^127: every quantity derived from A, B or the roots of A's
+    // factors has left the 128-bit range; the thorough tier walks 300, 330 and 400 bits in all classes)
+    if !thorough {
+        let (bits, r8) = (300u32, 7u64);
+        let n = gen_n(&mut rng, bits, r8);
+        let nint = Int::cast_from(n);
+        let case = format!("siqs/{}/{}/k1", bits, r8);
+        let nfacs = siqs::vhook::nfactors(&n) as usize;
+        let mm = siqs::vhook::interval_size(&n, false) as usize;
+        let fbsize = siqs::vhook::fb_size(&n, false).min(20000);
+        let want = siqs::vhook::a_value_count(&n).min(40);
+        siqs_case(&mut out, &mut rng, &case, &nint, fbsize, nfacs, mm, want, full_max, 1, &mut budget);
+    }
     // class group variant: negative discriminants, unit form (nfacs = 0) and small families
     for &(bits, nfacs, blocks) in &[(24u32, 0usize, 16usize), (30, 0, 16), (40, 2, 2), (64, 2, 2), (70, 3, 3), (100, 4, 3)] {
         for r8 in [1u64, 3, 5, 7] {
